@@ -110,12 +110,41 @@ def run(ck, prog, ctx):
                 leaf[b.id] = fm & {"parents", "children"}
     ck.ob("PAIR", "leaf-mutators", {"parents", "children"} <= set().union(*leaf.values()) if leaf else False, "leaf mutators of the edge fields: %s" % {k.rsplit("::", 1)[-1]: sorted(v) for k, v in leaf.items()})
 
+    # `&mut` accessors of the edge fields (`fn parents_mut(&mut self) -> &mut HpoGroup`): a call is a write site of that field when something is
+    # added through the reference; a whole assignment through it REPLACES the links recorded so far
+    edge_acc = {}
+    for b in prog.production():
+        if b.kind == "AssocFn" and b.impl_self and b.impl_self.get("adt") == TI and not b.impl_trait and b.nargs == 1 and b.id not in leaf and "&mut" in str(b.locals[0].get("s", "")) and not b.natural_loops():
+            fl_ = {a[2] for a in pv.of_return(b) if a[0] == "field" and a[1] == TI}
+            if len(fl_) == 1 and fl_ <= {"parents", "children"}:
+                edge_acc[b.id] = next(iter(fl_))
+
     # ------------------------------------------------------------------ PAIR
     writers = []
     for b in prog.production():
         if b.kind not in ("Fn", "AssocFn") or b.id in leaf:
             continue
         sites = [(bi, t, leaf[t.callee.res]) for bi, t in b.calls() if t.callee.res in leaf]
+        for bi, t in b.calls():
+            if t.callee.res in edge_acc and t.dest is not None and t.dest.is_local():
+                fld_ = edge_acc[t.callee.res]
+                dl_ = t.dest.local
+                alias_ = {dl_}
+                grow_ = True
+                while grow_:
+                    grow_ = False
+                    for _, s2 in b.stmts():
+                        if s2.k == "assign" and s2.place.is_local() and s2.place.local not in alias_ and s2.rv["k"] in ("ref", "use"):
+                            src_ = s2.rv["place"] if s2.rv["k"] == "ref" else s2.rv["op"].place
+                            if src_ is not None and src_.local in alias_:
+                                alias_.add(s2.place.local)
+                                grow_ = True
+                replaced = [s2 for _, s2 in b.stmts() if s2.k == "assign" and s2.place.local in alias_ and "*" in s2.place.fields() and not [e for e in s2.place.fields() if e != "*"]]
+                added = [(b2, t2) for b2, t2 in b.calls() if t2.callee.method in ("insert", "extend", "push", "insert_unchecked") and t2.args and t2.args[0].place is not None and t2.args[0].place.local in alias_]
+                if replaced:
+                    ck.ob("PAIR", "edge-field/%s/%s/grows" % (b.short, fld_), False, "%s ASSIGNS the whole `%s` group of a term (through %s): links recorded before - a term whose is_a lines arrive in more than one piece - are replaced, while the other direction of those edges stays" % (b.short, fld_, prog.bodies[t.callee.res].name), where=b.where(replaced[0].line))
+                for b2, t2 in added:
+                    sites.append((b2, t2, {fld_}))
         # a write performed inside a closure handed to a combinator (`lookup.map(|child| child.add_parent(..))`): the combinator
         # call is the site; whether the closure runs depends on the combinator, so such a site makes the pairing verdict undecided
         for bi, t in b.calls():
@@ -128,8 +157,71 @@ def run(ck, prog, ctx):
         if sites:
             writers.append((b, sites))
     ck.floor("PAIR", "edge writers", len(writers), 2)
+
+    # deferred half edges: a writer that cannot write one direction yet (the other term is not in the arena) may park the pair in a Vec field of the
+    # builder; another function drains that field and writes the missing direction.  Producer and consumer must agree on WHICH component of the
+    # parked pair is the term to look up.
+    from engines import user_root_locals as _urlq
+    pv_x = Prov(prog, mutflow=False)
+
+    def parked_pairs(b_):
+        """pushes of a 2-tuple onto a Vec field of self: list of (bb, field, index of the component that is the key of a lookup that failed on the way)"""
+        out_ = []
+        for bi_, t_ in b_.calls():
+            if t_.callee.method != "push" or len(t_.args) != 2 or t_.args[1].place is None:
+                continue
+            fl_ = field_names(pvn.of_operand(b_, t_.args[0]), "Builder")
+            if len(fl_) != 1:
+                continue
+            tup = [d_ for k_, p_, d_ in pvn.defs(b_).get(t_.args[1].place.local, []) if k_ == "assign" and d_.rv["k"] == "agg" and d_.rv.get("agg") == "tuple" and len(d_.rv["ops"]) == 2]
+            if len(tup) != 1:
+                continue
+            comp_roots = [frozenset(_urlq(b_, pvn, o_)) | frozenset(params_of(pvn.of_operand(b_, o_), b_.id)) for o_ in tup[0].rv["ops"]]
+            key_idx = None
+            for lbi, lt in b_.calls():
+                if (lt.callee.res or "").startswith(ARENA + "::get") and "unchecked" not in (lt.callee.res or "") and len(lt.args) == 2:
+                    # its negative (None) edge dominates the push
+                    pe_ = set(positive_edges(b_, pvn, lbi))
+                    neg = [(sb_, tg_) for sb_ in sorted(b_.reach) if b_.blocks[sb_].term.k == "switch" and any(e_[0] == sb_ for e_ in pe_) for tg_ in b_.blocks[sb_].term.successors() if (sb_, tg_) not in pe_]
+                    if any(b_.edge_dominates(e_, bi_) for e_ in neg):
+                        kr = frozenset(_urlq(b_, pvn, lt.args[1])) | frozenset(params_of(pvn.of_operand(b_, lt.args[1]), b_.id))
+                        hit = [i_ for i_, cr in enumerate(comp_roots) if cr and cr & kr]
+                        if len(hit) == 1:
+                            key_idx = hit[0]
+            out_.append((bi_, next(iter(fl_)), key_idx))
+        return out_
+
+    def drains(field_):
+        """functions that walk the Vec field `field_` of the builder and write an edge direction per element: list of (body, direction, index of the
+        tuple component used as lookup key, index used as the written id)"""
+        out_ = []
+        for c_ in prog.production():
+            if c_.kind not in ("Fn", "AssocFn"):
+                continue
+            for bi_, t_ in c_.calls():
+                if t_.callee.res in leaf and len(t_.args) == 2:
+                    key_at = set()
+                    for a in pvn.of_operand(c_, t_.args[0]):
+                        if a[0] == "call" and a[3] == c_.id and a[1].startswith(ARENA + "::get"):
+                            key_at |= set(pv_x.of_operand(c_, c_.blocks[a[4]].term.args[1]))
+                    val_at = set(pv_x.of_operand(c_, t_.args[1]))
+                    if not any(a[0] == "field" and a[2] == field_ and a[1].endswith("Builder") for a in key_at | val_at):
+                        continue
+
+                    def comp_idx(at_):
+                        idx = set()
+                        for a in at_:
+                            if a[0] == "call" and a[1].endswith("::next"):
+                                tf = [e[1] for e in a[5] if e[0] == "f" and len(e) > 2 and e[2] == "tuple" and e[1] in ("0", "1")]
+                                if tf:
+                                    idx.add(tf[-1])
+                        return int(next(iter(idx))) if len(idx) == 1 else None
+                    out_.append((c_, leaf[t_.callee.res], comp_idx(key_at), comp_idx(val_at), t_.line))
+        return out_
     for need in ("add_parent", "add_parent_unchecked"):
         ck.anchor("PAIR", "Builder<AllTerms>::" + need, [b for b, _ in writers if b.name == need], private=(need == "add_parent_unchecked"))
+    deferred_fields = set()
+    deferred_candidates = {f_ for b_, _s in writers for _bi, f_, _k in parked_pairs(b_)}
     for b, sites in sorted(writers, key=lambda x: x[0].id):
         wp = [(bi, t) for bi, t, f in sites if "parents" in f]
         wc = [(bi, t) for bi, t, f in sites if "children" in f]
@@ -177,18 +269,62 @@ def run(ck, prog, ctx):
         if wp and wc and via_closure:
             ck.undecided("PAIR", "edge/%s" % b.short, "%s writes one direction of the edge inside a closure handed to a combinator: whether both directions are written on every exit is not decided" % b.short, where=b.where())
             continue
+        if (not wp or not wc) and any(any(a[0] == "field" and a[2] in deferred_candidates and a[1].endswith("Builder") for a in pv.of_operand(b, t_.args[1])) for bi_, t_ in b.calls() if t_.callee.res in leaf and len(t_.args) == 2):
+            # the consumer of a parked-pairs field writes one direction by design (judged together with its producer)
+            continue
         if not wp or not wc:
             ck.violation("PAIR", "edge/%s" % b.short, "%s writes only the %s side of an is_a edge" % (b.short, "parents" if wp else "children"), where=b.where())
             continue
         u1 = unpaired(wc, wp)
         u2 = unpaired(wp, wc)
         ok = not u1 and not u2
+        if not ok:
+            # bulk form: each direction is written in a loop of its own over the SAME collection of ids (`for p in &parents { p.add_child(c) } ..
+            # for p in &parents { child.parents.insert(p) }`), possibly skipped as a whole when that collection is empty.  The path "first loop ran,
+            # second did not" that the per-edge pairing finds is infeasible; what matters is that both loops walk the same collection completely.
+            from engines import for_loops as _fl2, loop_early_exits as _lee2, user_root_locals as _url2
+            fls_ = _fl2(b)
+
+            def loop_root(site_bi):
+                for lp_ in fls_:
+                    if site_bi in lp_["blocks"]:
+                        return lp_, frozenset(params_of(pvn.of_operand(b, lp_["iter"]), b.id) - {1} or _url2(b, pvn, lp_["iter"]))
+                return None, frozenset()
+            roots_p = [loop_root(bi_) for bi_, _ in wp]
+            roots_c = [loop_root(bi_) for bi_, _ in wc]
+            if all(r_[0] is not None and r_[1] for r_ in roots_p + roots_c) and len({r_[1] for r_ in roots_p + roots_c}) == 1 and {id(r_[0]) for r_ in roots_p} != {id(r_[0]) for r_ in roots_c}:
+                early = [e_ for r_ in roots_p + roots_c for e_ in _lee2(b, r_[0])]
+                ck.ob("PAIR", "edge/%s" % b.short, not early, "%s writes the two directions of the edges in two loops over the same collection `%s`%s" % (b.short, "/".join(b.local_name(x) for x in sorted(roots_p[0][1])), "" if not early else ", one of which can be left early: half edges remain"), where=b.where())
+                u1 = u2 = []
+                ok = None
         msg = "%s writes both directions of the edge on every feasible exit%s" % (b.short, " (%d infeasible error edge(s) of a re-lookup of a validated id ignored)" % len(infeasible) if infeasible else "")
-        if u1:
+        if (u1 or u2) and ok is not None:
+            missing_dir = "parents" if u1 else "children"
+            parked = parked_pairs(b)
+            bad_sites = u1 or u2
+            # every unpaired write must be able to reach a parking push (the path on which the other direction is not written ends in the push)
+            covered = parked and all(any(pb_ in reach(abi, set()) for pb_, _f, _k in parked) for abi, _t in bad_sites)
+            if covered:
+                fld_ = parked[0][1]
+                cons = [d_ for d_ in drains(fld_) if missing_dir in d_[1]]
+                if not cons:
+                    ck.undecided("PAIR", "edge/%s" % b.short, "%s parks half edges in self.%s; no function that drains that field and writes the `%s` direction was recognised" % (b.short, fld_, missing_dir), where=b.where())
+                else:
+                    c_, dir_, kd, vd, line_ = cons[0]
+                    kp = parked[0][2]
+                    if kp is None or kd is None or vd is None:
+                        ck.undecided("PAIR", "edge/%s" % b.short, "%s parks half edges in self.%s, %s completes them: which component of the parked pair is the term to look up is not recognised on one side (producer %s, consumer key %s, value %s)" % (b.short, fld_, c_.short, kp, kd, vd), where=b.where())
+                    else:
+                        good = kd == kp and vd == 1 - kp
+                        ck.ob("PAIR", "edge/%s" % b.short, good, "%s parks the half edge as a pair whose component %d is the term that could not be looked up; %s looks up component %d and writes component %d into its `%s`%s" % (b.short, kp, c_.short, kd, vd, missing_dir, "" if good else ": producer and consumer of self.%s disagree about the order of the pair" % fld_), where=c_.where(line_))
+                ok = None
+                deferred_fields.add(fld_)
+        if u1 and ok is not None:
             msg = "%s: a path writes parent.children (line %s) and returns without writing child.parents: a half edge remains" % (b.short, u1[0][1].line)
-        elif u2:
+        elif u2 and ok is not None:
             msg = "%s: a path writes child.parents (line %s) and returns without writing parent.children" % (b.short, u2[0][1].line)
-        ck.ob("PAIR", "edge/%s" % b.short, ok, msg, where=b.where())
+        if ok is not None:
+            ck.ob("PAIR", "edge/%s" % b.short, ok, msg, where=b.where())
         # roles
         pnames = b.arg_names
 
@@ -201,7 +337,24 @@ def run(ck, prog, ctx):
             return out
 
         ps = sorted(p for p in range(2, b.nargs + 1))
-        if len(ps) >= 2:
+        named = any("parent" in pnames.get(p, "") for p in ps) and any("child" in pnames.get(p, "") for p in ps)
+        if not named and wc and wp:
+            # a function whose parameters do not name the two ends (`add_term_with_parents(term, parent_ids)`): no names to hold the roles against,
+            # but the two writes must still describe the SAME edge - the term that gets the child is the one recorded as parent of that child
+            def ends(sites_):
+                out = set()
+                for bi, t in sites_:
+                    rk = key_params(t.args[0])
+                    va = params_of(pvn.of_operand(b, t.args[1]), b.id)
+                    out.add((frozenset(rk), frozenset(va)))
+                return out
+            ec, ep = ends(wc), ends(wp)
+            if all(k and v for k, v in ec | ep):
+                mirror = {(v, k) for k, v in ep}
+                ck.ob("ROLE", "edge/%s/same-edge" % b.short, ec == mirror, "%s: children are added as %s, parents as %s%s" % (b.short, sorted((sorted(pnames.get(p, str(p)) for p in k), sorted(pnames.get(p, str(p)) for p in v)) for k, v in ec), sorted((sorted(pnames.get(p, str(p)) for p in k), sorted(pnames.get(p, str(p)) for p in v)) for k, v in ep), "" if ec == mirror else ": the two writes do not describe the same (parent, child) pair"), where=b.where())
+            else:
+                ck.undecided("ROLE", "edge/%s/same-edge" % b.short, "the terms / ids of the two edge writes of %s are not keyed by parameters" % b.short, where=b.where())
+        elif len(ps) >= 2:
             parent_p, child_p = ps[0], ps[1]
             # the method's own parameter names decide which is which when available
             for p in ps:
@@ -607,7 +760,8 @@ def run(ck, prog, ctx):
         for tbi, tt in tests:
             for e in positive_edges(b, pvn, tbi):
                 pos_edges.add(e)
-        build_blocks = {bi for bi, t in b.calls() if t.callee.res in builders}
+        # (a private `ensure_cache(id)` that tests and, if needed, calls the writer is a builder as well: after it the cache exists)
+        build_blocks = {bi for bi, t in b.calls() if t.callee.res in builders or (to_writer(t) and t.callee.res != b.id)}
         # `parents.iter().all(|p| cached(p))`: its true edge is a cache test for EVERY parent (`any` is a test for some parent only - not a guard)
         quant = quantified_cache_tests(prog, b, pvn, pv)
         wrong_quant = []
@@ -747,7 +901,42 @@ def run(ck, prog, ctx):
     pc = prog.body(TI + "::parents_cached")
     if pc is not None:
         fl = codec.fields_read(prog, pc, TI_RX, depth=0)
-        ck.ob("FIELD", "parents_cached", "all_parents" in fl, "parents_cached looks at %s (the closure set decides; see the truth table below)" % sorted(fl), where=pc.where())
+        # another private representation of "cache built": a boolean STATE FLAG of the term that the cache-writing protocol maintains (every
+        # writer of `all_parents` assigns it).  The emptiness table below does not apply to it; what is decided instead: outside the cache writers
+        # the flag is only ever assigned a constant or or-ed / and-ed with itself - a plain `flag = <expression>` overwrites a pending state
+        flag_fields = set()
+        if "all_parents" not in fl:
+            bool_fl = {f_ for f_ in fl if any(f2.get("name") == f_ and f2.get("ty") == "bool" for v_ in prog.adts.get(TI, {}).get("variants", []) for f2 in v_.get("fields", []))}
+            for f_ in bool_fl:
+                writers_f = {b_.id for b_ in prog.production() for _, s_ in b_.stmts() if s_.k == "assign" and any(e != "*" and e[0] == "f" and e[1] == f_ and e[2] == TI for e in s_.place.fields())}
+                aw = {b_.id for b_ in prog.production() for _, s_ in b_.stmts() if s_.k == "assign" and any(e != "*" and e[0] == "f" and e[1] == "all_parents" and e[2] == TI for e in s_.place.fields()) and b_.name != "new"}
+                if aw and aw <= writers_f | {x for x in aw if prog.bodies[x].name == "new"}:
+                    flag_fields.add(f_)
+        if flag_fields:
+            ck.undecided("FIELD", "parents_cached", "parents_cached answers from the private state flag %s, which the writers of `all_parents` maintain: the emptiness table does not apply to this representation" % sorted(flag_fields), where=pc.where())
+            for f_ in sorted(flag_fields):
+                for b_ in sorted(prog.production(), key=lambda x: x.id):
+                    if b_.name == "new" or b_.kind not in ("Fn", "AssocFn"):
+                        continue
+                    for (bb_, _i), s_ in b_.stmts():
+                        if s_.k == "assign" and any(e != "*" and e[0] == "f" and e[1] == f_ and e[2] == TI for e in s_.place.fields()):
+                            rv_ = s_.rv
+                            const_ = rv_["k"] == "use" and rv_["op"].kind == "const"
+                            selfop = rv_["k"] == "bin" and rv_["op"] in ("BitOr", "BitAnd") and any(o_.place is not None and any(e != "*" and e[0] == "f" and e[1] == f_ for e in o_.place.fields()) for o_ in (rv_["l"], rv_["r"]))
+                            if not selfop and rv_["k"] == "use" and rv_["op"].place is not None and rv_["op"].place.is_local():
+                                # `flag |= x` compiles to  tmp = BitOr(flag_copy, x); flag = tmp
+                                for k2, p2, d2 in pvn.defs(b_).get(rv_["op"].place.local, []):
+                                    if k2 == "assign" and d2.rv["k"] == "bin" and d2.rv["op"] in ("BitOr", "BitAnd"):
+                                        for o_ in (d2.rv["l"], d2.rv["r"]):
+                                            if o_.place is not None and (any(e != "*" and e[0] == "f" and e[1] == f_ for e in o_.place.fields()) or any(a[0] == "field" and a[2] == f_ and a[1] == TI for a in pvn.of_operand(b_, o_))):
+                                                selfop = True
+                            writes_cache = any(s2.k == "assign" and any(e != "*" and e[0] == "f" and e[1] == "all_parents" and e[2] == TI for e in s2.place.fields()) for _, s2 in b_.stmts())
+                            if not const_ and not selfop and not writes_cache:
+                                ck.ob("FIELD", "cache-flag/%s/%s" % (f_, b_.short), False, "%s ASSIGNS the cache-state flag `%s` a computed value: a state that was pending (set by an earlier call) is overwritten - e.g. a repeated is_a edge marks a cache valid that was never built; it takes `|=` / a constant" % (b_.short, f_), where=b_.where(s_.line))
+                            elif not writes_cache:
+                                ck.ob("FIELD", "cache-flag/%s/%s" % (f_, b_.short), True, "%s updates the cache-state flag `%s` with %s" % (b_.short, f_, "a constant" if const_ else "`|=` / `&=` on itself"), where=b_.where(s_.line))
+        else:
+          ck.ob("FIELD", "parents_cached", "all_parents" in fl, "parents_cached looks at %s (the closure set decides; see the truth table below)" % sorted(fl), where=pc.where())
         # exact truth table: cached <=> no direct parents OR the closure set is filled; nothing else (a flag of the term, ...) may answer "cached"
         import itertools
         from engines import bool_table, eval_bool_table
@@ -765,8 +954,10 @@ def run(ck, prog, ctx):
             if pl.local == 1 and len(fs) == 1 and fs[0][0] == "f":
                 return ("flag", fs[0][1])
             return None
-        rows = bool_table(pc, lambda *a: None, call_atom=call_atom, place_atom=place_atom)
-        if rows is None:
+        rows = bool_table(pc, lambda *a: None, call_atom=call_atom, place_atom=place_atom) if not flag_fields else ()
+        if flag_fields:
+            pass
+        elif rows is None:
             ck.undecided("FIELD", "parents_cached/table", "parents_cached is not a plain combination of emptiness tests", where=pc.where())
         else:
             keys = sorted({k for asg, r in rows for k in asg} | {r[1] for asg, r in rows if isinstance(r, tuple)})
